@@ -1,6 +1,7 @@
 package main
 
 import (
+	"github.com/basecomplextech/baselibrary/bin"
 	"unsafe"
 
 	"github.com/basecomplextech/spec"
@@ -218,6 +219,7 @@ func (s *readState) walkTyped(m spec.Message, c *cnode, h uint64) uint64 {
 // typedMsgBody continues after the kind code has been mixed.
 func (s *readState) typedMsgBody(m spec.Message, c *cnode, h uint64) uint64 {
 	h = mix(h, uint64(m.Fields()))
+	s.absentReads(m, c)
 	for _, i := range c.sorted {
 		tag := c.tags[i]
 		f := c.fields[i]
@@ -390,4 +392,37 @@ func (s *readState) typedListBody(l spec.List, c *cnode, h uint64) uint64 {
 		}
 	}
 	return h
+}
+
+// absentReads reads a tag the message does not have through every typed accessor: a generated
+// reader does that for every field that was not set. All of them return the zero value, none may
+// allocate (this runs inside the measured closure).
+func (s *readState) absentReads(m spec.Message, c *cnode) {
+	tag := uint16(65535)
+	for {
+		found := false
+		for _, t := range c.tags {
+			if t == tag {
+				found = true
+				break
+			}
+		}
+		if !found {
+			break
+		}
+		tag--
+	}
+	if m.HasField(tag) {
+		s.errs++
+		return
+	}
+	bad := false
+	bad = bad || m.Bool(tag) || m.Byte(tag) != 0 || m.Int16(tag) != 0 || m.Int32(tag) != 0 || m.Int64(tag) != 0
+	bad = bad || m.Uint16(tag) != 0 || m.Uint32(tag) != 0 || m.Uint64(tag) != 0 || m.Float32(tag) != 0 || m.Float64(tag) != 0
+	bad = bad || m.Bin64(tag) != (bin.Bin64{}) || m.Bin128(tag) != (bin.Bin128{}) || m.Bin256(tag) != (bin.Bin256{})
+	bad = bad || len(m.Bytes(tag)) != 0 || len(m.String(tag)) != 0
+	bad = bad || m.List(tag).Len() != 0 || m.Message(tag).Fields() != 0 || len(m.Field(tag)) != 0
+	if bad {
+		s.errs++
+	}
 }
